@@ -90,6 +90,11 @@ def run_case(case, ctx):
             A = np.rint(A * 2).astype(int)
             A[A == 0] = 1
             b = np.rint(b * 3).astype(int)
+    f32_x = kind in ('affine', 'smooth') and case['seed'] % 8 == 1
+    if f32_x:
+        # the point handed over as a float32 array (the maps themselves compute in float64)
+        ctx.count('float32_x_cases')
+        x = x.astype(np.float32).astype(float)
     step = D.build_step(nd, case['step'])
     kw = dict(method=method, order=order, step=step, full_output=True)
     D._OBS.clear()
@@ -110,7 +115,7 @@ def run_case(case, ctx):
             exact = ca[:, None] * A * eb[:, None] + sa[:, None] * eb[:, None] * B
         try:
             with np.errstate(all='ignore'):
-                J, info = nd.Jacobian(f, **kw)([int(v) for v in x] if int_x else _as_given(x, case, ctx))
+                J, info = nd.Jacobian(f, **kw)([int(v) for v in x] if int_x else x.astype(np.float32) if f32_x else _as_given(x, case, ctx))
         except Exception as exc:
             ctx.reject('jacobian_raised', observed='%s: %s' % (type(exc).__name__, str(exc)[:150]),
                        kind=kind, m=m, n=n, method=method, length_one_output=bool(m == 1))
@@ -169,7 +174,7 @@ def run_case(case, ctx):
         exact = T + ca[:, None, None] * A[:, :, None] * v[None, None, :]
         try:
             with np.errstate(all='ignore'):
-                J, info = nd.Jacobian(f, **kw)(_as_given(x, case, ctx))
+                J, info = nd.Jacobian(f, **kw)(x.astype(np.float32) if f32_x else _as_given(x, case, ctx))
         except Exception as exc:
             ctx.reject('jacobian_raised', observed='%s: %s' % (type(exc).__name__, str(exc)[:150]),
                        kind=kind, m=m, n=n, k=k, method=method, length_one_output=False)
